@@ -232,6 +232,29 @@ type Nest16 struct {
 	R  []In16
 }
 `},
+	// every leaf type as a repeated leaf, at the top level, below an optional
+	// and below a repeated group (repetition levels 1 and 2 for every type)
+	{Name: "nestrep", Type: "NestRep", Src: `
+type InRep struct {
+	K    int32
+	B    []bool
+	I32  []int32
+	U32  []uint32
+	I64  []int64
+	U64  []uint64
+	F32  []float32
+	F64  []float64
+	S    []string
+}
+
+type NestRep struct {
+	ID int32
+	O  *InRep
+	R  []InRep
+	F  []float32
+	U  []uint64
+}
+`},
 	// unusual but legal column names: one a prefix of another, differing only
 	// in case, Go keywords, non-ASCII, punctuation, leading digit, a space
 	{Name: "oddnames", Type: "OddNames", Src: `
